@@ -7,12 +7,13 @@ import RV.C04.Types
   `Alg.safe P`    where rdflib's binding push-down is exact: at every node whose evaluation trims the pushed-in
                   bindings with an annotation set (`_vars`) — FILTER, BIND, MINUS, OPTIONAL — the annotation
                   classifies every variable that matters exactly as "bound by the sub-pattern" (in `must`) or
-                  "not bound by it" (not in `may`).  The three known findings of C04 are exactly the ways in
+                  "not bound by it" (not in `may`).  The known findings of C04 are the ways in
                   which rdflib's `_vars` fails this (see design.d/C04.md):
                     K1  a variable the sub-pattern MAY bind but need not (OPTIONAL, one UNION branch, VALUES UNDEF,
                         un-projected sub-select variable, right side of MINUS) counted as bound by it,
                     K2  VALUES variables missing from `_vars`,
-                    K3  variables that only occur in a FILTER expression (outside `=`,`<`… comparisons) counted.
+                    (K3, variables that only occur in a FILTER expression counted as bound by the filter's group, was
+                    repaired on /repo main while this check was built: C04-F14.)
   `Alg.inFragment P`  the operators for which `pushdown` is PROVED (Props.lean); the rest is stated.
 -/
 namespace RV.C04
@@ -30,7 +31,7 @@ def Alg.must : Alg → List Nat
   | .leftJoin a _ _ _ _ => a.must
   | .filter _ p _ _ => p.must
   | .union a b => a.must.filter (b.must.contains ·)
-  | .minus a _ _ => a.must
+  | .minus a _ _ _ => a.must
   | .extend p _ _ _ => p.must
   | .graph g p => g.vars ++ p.must
   | .values _ _ => []          -- UNDEF cells: nothing is guaranteed
@@ -43,7 +44,7 @@ def Alg.may : Alg → List Nat
   | .leftJoin a b _ _ _ => a.may ++ b.may
   | .filter _ p _ _ => p.may
   | .union a b => a.may ++ b.may
-  | .minus a _ _ => a.may
+  | .minus a _ _ _ => a.may
   | .extend p v _ _ => v :: p.may
   | .graph g p => g.vars ++ p.may
   | .values vars _ => vars
@@ -66,7 +67,7 @@ def Alg.allVars : Alg → List Nat
   | .leftJoin a b e _ _ => a.allVars ++ b.allVars ++ e.vars
   | .filter e p _ _ => e.vars ++ p.allVars
   | .union a b => a.allVars ++ b.allVars
-  | .minus a b _ => a.allVars ++ b.allVars
+  | .minus a b _ _ => a.allVars ++ b.allVars
   | .extend p v e _ => v :: (e.vars ++ p.allVars)
   | .graph g p => g.vars ++ p.allVars
   | .values vars _ => vars
@@ -115,10 +116,17 @@ def Alg.safe : Alg → Bool
   | .values _ _ => true
   | .project p _ => p.safe
   | .graph _ p => p.safe
-  | .minus a b p1vars => a.safe && b.safe && scopeOK b.may p1vars a.must a.may
+  | .minus a b p1vars p2vars =>
+    a.safe && b.safe &&
+    (match p1vars with
+     | none => false
+     | some vs => scopeOK b.may vs a.must a.may) &&
+    (match p2vars with
+     | none => true
+     | some vs => b.may.all (vs.contains ·))
   | .leftJoin a b e p1vars p2vars =>
     a.safe && b.safe && e.safe &&
-    scopeOK e.vars (p1vars.getD [] ++ p2vars) (a.must ++ b.must) (a.may ++ b.may) &&
+    scopeOK e.vars (ownVars p1vars p2vars) (a.must ++ b.must) (a.may ++ b.may) &&
     (match p1vars with
      | none => false
      | some vs => scopeOK (b.may ++ e.vars) vs a.must a.may)
@@ -142,7 +150,7 @@ def Alg.inFragment : Alg → Bool
   | .values _ _ => true
   | .project p _ => p.inFragment
   | .graph _ p => p.inFragment
-  | .minus a b _ => a.inFragment && b.inFragment
+  | .minus a b _ _ => a.inFragment && b.inFragment
   | .leftJoin a b _ _ _ => a.inFragment && b.inFragment
 
 theorem Alg.inFragment_true : ∀ P : Alg, P.inFragment = true
@@ -154,7 +162,7 @@ theorem Alg.inFragment_true : ∀ P : Alg, P.inFragment = true
   | .values _ _ => rfl
   | .project p _ => by simp [Alg.inFragment, Alg.inFragment_true p]
   | .graph _ p => by simp [Alg.inFragment, Alg.inFragment_true p]
-  | .minus a b _ => by simp [Alg.inFragment, Alg.inFragment_true a, Alg.inFragment_true b]
+  | .minus a b _ _ => by simp [Alg.inFragment, Alg.inFragment_true a, Alg.inFragment_true b]
   | .leftJoin a b _ _ _ => by simp [Alg.inFragment, Alg.inFragment_true a, Alg.inFragment_true b]
 
 def Query.pattern : Query → Alg
